@@ -394,6 +394,27 @@ def decide(ob, str_axioms, timeout_ms=20000, use_cvc5=True, name=None, want_smt2
     return (name, "unknown", "z3", r[1] if isinstance(r[1], float) else 0.0, r[2] if r[0] == "unknown" else "full query sat, instantiated query undecided", tried, full)
 
 
+def hyps_refutable(ob, str_axioms, budget_ms=10000):
+    """vacuity probe: are the hypotheses of the obligation contradictory?  (sound only in the `True` direction)"""
+    from .state import Obligation
+    probe = Obligation(ob.name + "#feasible", ob.hyps, z3.BoolVal(False), ob.meta)
+    fs0 = list(probe.hyps)
+    r, _ = _solve_api(fs0 + list(str_axioms) + prelude.instantiate(fs0, lite=True), min(2000, budget_ms))
+    if r[0] == "unsat":
+        return True
+    if r[0] == "sat":
+        return False
+    r, _ = _solve_api(_all_formulas(probe, str_axioms), min(3000, budget_ms))
+    if r[0] == "unsat":
+        return True
+    lite, _c = build_inst(probe, str_axioms, lite=True)
+    if len(lite) < 25000000:
+        rl = _solve_z3(lite, budget_ms)
+        if rl[0] == "unsat":
+            return True
+    return False
+
+
 def _solve_z3(smt2, timeout_ms, seed=0):
     ctx = z3.Context()
     s = z3.Solver(ctx=ctx)
